@@ -370,55 +370,9 @@ def rule_order(ctx, repo):
 
 
 def rule_case_split(ctx, repo):
-    """time case splits of history components are exhaustive (dae_t vs last stored time)."""
-    for cls, tl in (("Delay", "self.t[-1]"), ("Sampling", "self._last_t")):
-        ci, fn = repo.method(cls, "check_var", DISC)
-        chains = [n for n in fn.body if isinstance(n, ast.If) and "dae_t" in src(n.test)]
-        if not chains:
-            raise AnalysisError("%s.check_var: time case split vanished" % cls)
-        top = chains[0]
-        conds = []
-        node = top
-        has_else = False
-        while True:
-            conds.append(node.test)
-            if len(node.orelse) == 1 and isinstance(node.orelse[0], ast.If):
-                node = node.orelse[0]
-            else:
-                has_else = bool(node.orelse)
-                break
-        bad = []
-        for t, last in itertools.product((0, 1, 2, 3), (0, 2)):
-            env = {"dae_t": t, "self.t": last, "self._last_t": last}
-            try:
-                hits = [bool(Interp(env).ev(c)) for c in conds]
-            except Unsupported as e:
-                ctx.undecided("C09.case-split", "%s.check_var" % cls, "front-end: %s" % e, repo.W(ci, fn))
-                hits = None
-                break
-            if not any(hits) and not has_else:
-                bad.append("dae_t=%s, last=%s matches no branch" % (t, last))
-        if hits is not None:
-            ctx.check(not bad, "C09.case-split", "%s.check_var" % cls, "first step / rewind / same time / advance: exhaustive",
-                      "; ".join(bad[:3]), repo.W(ci, fn))
-    # Delay output is always the oldest column
-    ci, fn = repo.method("Delay", "check_var", DISC)
-    last = fn.body[-1]
-    ctx.check(Q.match("self.v[:] = self._v_mem[:, 0]", last) is not None, "C09.case-split", "Delay.check_var/output",
-              "output = oldest stored column on every path", "Delay output is no longer the oldest stored value", repo.W(ci, last))
-    # time-mode history: the interpolated sample replaces BOTH the value and its time stamp at the same position, then
-    # everything older is dropped from both arrays (paired writes keep (t, v) samples consistent)
-    e = Q.first("$vi = interp_n2($ti, self.t[$i:$i + 2], self._v_mem[:, $i:$i + 2])", fn)[1]
-    ok = e is not None and Q.has("self.t[$i] = $ti", fn, e) and Q.has("self._v_mem[:, $i] = $vi", fn, e) and \
-        Q.has("self.t = np.delete(self.t, np.arange(0, $i))", fn, e) and Q.has("self._v_mem = np.delete(self._v_mem, np.arange(0, $i), axis=1)", fn, e) \
-        and Q.has("$ti = dae_t - self.delay", fn, e)
-    ctx.check(ok, "C09.case-split", "Delay.check_var/time-mode-pairing",
-              "interpolated sample written as a (time, value) pair at one position; older samples dropped from both arrays",
-              "time-mode delay no longer updates the sample time together with the interpolated value (or prunes only one of the two "
-              "arrays): later interpolations use a stale abscissa", repo.W(ci, fn))
-    ok = Q.has("self.t = np.append(self.t, dae_t)", fn) and Q.has("self._v_mem = np.hstack((self._v_mem, self.u.v[:, None]))", fn)
-    ctx.check(ok, "C09.case-split", "Delay.check_var/time-mode-append", "new (time, value) sample appended to both arrays",
-              "time-mode delay appends to only one of the history arrays", repo.W(ci, fn))
+    """Switcher flags.  (The time case splits and the (time, value) pairing of Delay / Sampling were shape rules here; they are
+    now decided behaviourally by C09.history, which interprets the methods over every ADVANCE/REPEAT/REWIND pattern -- the shape
+    rules raised a false alarm on a behaviour-preserving restructuring of Sampling.check_var and were withdrawn.)"""
     # Switcher: one flag per option compared with that option
     ci, fn = repo.method("Switcher", "check_var", DISC)
     ok = False
@@ -437,7 +391,9 @@ def run(ctx):
     ctx.rule("C09.tautology", "no comparison of an expression with itself in discrete.py", 1)
     ctx.rule("C09.xset", "x_set producer tuple vs its three consumers", 4)
     ctx.rule("C09.order", "flag evaluation order in TDS.fg_update / PFlow.fg_update / Model dispatch", 5)
-    ctx.rule("C09.case-split", "time case splits exhaustive; Delay output and (time, value) pairing; Switcher flags", 6)
+    ctx.rule("C09.history", "Delay / Average / Derivative interpreted over every ADVANCE/REPEAT/REWIND call pattern (symbolic samples) "
+             "vs the definition evaluated on the accepted history", 9)
+    ctx.rule("C09.case-split", "Switcher: one flag per option, compared with that option", 1)
     ctx.assume("one array element is interpreted as a scalar; do_adjust_* (initialisation-time limit adjustment) is skipped (is_init=False)")
     ctx.assume("'never leaves [lower, upper] at any stored instant' inside a simulation and delay interpolation accuracy: declined")
     repo = Repo()
@@ -447,4 +403,6 @@ def run(ctx):
     rule_xset(ctx, repo)
     rule_order(ctx, repo)
     rule_case_split(ctx, repo)
+    from rules import c09_history
+    c09_history.run(ctx, repo)
     ctx.extra["exhaustive"] = True
